@@ -294,14 +294,25 @@ def check_unescape(ctx):
     for k, v in extra.items():
         okx = ECMA_SINGLE.get(k) == v
         obs.append(ob("C12.unescape/single-extra/%s" % k, okx, where, "`\\%s` decodes to U+%04X; ECMA says %s" % (k, v, ECMA_SINGLE.get(k))))
+    std_hex = any(n.get("k") == "mcall" and n["m"] == "to_digit" and n["args"] and str(n["args"][0].get("v")) == "16" for n in sir.walk_reach(tc, f))
     for d in "0123456789abcdefABCDEF":
-        obs.append(ob("C12.unescape/hex/%s" % d, hexd.get(d) == int(d, 16), where, "hex digit %r has value %s" % (d, hexd.get(d))))
+        okd = hexd.get(d) == int(d, 16) or (not hexd and std_hex)
+        obs.append(ob("C12.unescape/hex/%s" % d, okd, where, "hex digit %r has value %s" % (d, hexd.get(d) if hexd else "char::to_digit(16)")))
+    # digit counts given as an argument of a helper, per escape letter
+    for n in sir.walk_reach(tc, f):
+        if n.get("k") == "arm" and n["pat"].get("k") == "p_lit" and n["pat"]["e"].get("v") in ("x", "u"):
+            ints = [int(a["v"]) for x in sir.walk(n["body"]) if x.get("k") == "call" for a in x["args"] if a.get("k") == "lit" and a.get("t") == "int"]
+            if len(ints) == 1:
+                widths.append((n["pat"]["e"]["v"], ints[0], {"x": 4, "u": 2}[n["pat"]["e"]["v"]] if False else None))
     wok = False
     for which, t, e in widths:
         if which == "x" and t == 2 and e == 4:
             wok = True
         if which == "u" and t == 4 and e == 2:
             wok = True
+    per_letter = {w_: t_ for w_, t_, e_ in widths if e_ is None}
+    if per_letter:
+        wok = per_letter == {"x": 2, "u": 4}
     obs.append(ob("C12.unescape/widths", wok, where, "\\x / \\u digit counts: %s (expected 2 / 4)" % widths))
     acc = [n for n in sir.walk_reach(tc, f) if n.get("k") == "assign" and n["r"].get("k") == "binary" and n["r"]["op"] == "+" and n["r"]["l"].get("k") == "binary" and n["r"]["l"]["op"] == "*"]
     aok = any(sir.expr_str(n["r"]["l"]["r"]) == "16" and sir.expr_str(n["r"]["l"]["l"]) == sir.expr_str(n["l"]) for n in acc)
